@@ -504,6 +504,30 @@ func runAgg(prop string, res *Result, pool *DrvPool, r *Rng) {
 				}
 			}
 		}
+		// one snapshot value aggregated several times, coarse levels first: each aggregation must give
+		// what it gives on a freshly built snapshot (nothing an aggregation does may leak into the next)
+		if (prop == "C05" || prop == "C06" || prop == "C12" || prop == "C14") && len(c.gs) <= 200 {
+			shared := snapshotOf(c.gs)
+			order := []int{3, 2, 1, 0}
+			if len(c.gs)%2 == 1 {
+				order = []int{2, 3, 0, 1}
+			}
+			for k, li := range order {
+				if perLevel[li] == nil {
+					continue
+				}
+				var a *stack.Aggregated
+				if p := catch(func() { a = shared.Aggregate(levels[li]) }); p != nil {
+					res.Violation(Finding{Stream: "agg-again", What: fmt.Sprintf("Aggregate panicked on a snapshot aggregated before: %v", p), Op: map[string]interface{}{"gs": c.gs, "levels": order[:k+1]}})
+					break
+				}
+				if got, want := jsonStr(mBuckets(a.Buckets)), jsonStr(mBuckets(perLevel[li])); got != want {
+					res.Violation(Finding{Stream: "agg-again", What: fmt.Sprintf("aggregating at level %d a snapshot that was aggregated before (levels %v) gives other buckets than on a freshly built snapshot: %s vs %s", li, order[:k], bucketPartition(a.Buckets), bucketPartition(perLevel[li])), Op: map[string]interface{}{"gs": c.gs, "levels": order[:k+1]}, Expected: mBuckets(perLevel[li]), Got: mBuckets(a.Buckets)})
+					break
+				}
+			}
+			res.Count("re-aggregated")
+		}
 		if prop == "C05" && uniq {
 			for li := 0; li+1 < 4; li++ {
 				if perLevel[li] != nil && perLevel[li+1] != nil && !refines(perLevel[li], perLevel[li+1]) {
